@@ -48,7 +48,15 @@ type kvStep struct {
 	S []string  `json:"s,omitempty"`
 	I []int64   `json:"i,omitempty"`
 	F []float64 `json:"f,omitempty"`
+	// V: call form of the variadic (...any) argument of LPush, RPush, SAdd, SRem, ZRem, PFAdd,
+	// Eval: 0 elements one by one, 1 ONE []string as the single argument, 2 ONE []any as the
+	// single argument (go-redis flattens a single slice argument), 3 a slice nested in a
+	// slice (not marshalable: store and single server must fail alike), 4 no element.
+	V int `json:"v,omitempty"`
 }
+
+// kvVariadic: the kv.Store methods with a ...any parameter.
+var kvVariadic = map[string]bool{"LPush": true, "RPush": true, "SAdd": true, "SRem": true, "ZRem": true, "PFAdd": true, "Eval": true}
 
 type kvCase struct {
 	Weights []int    `json:"w"` // one per shard, 1..4 shards
@@ -495,6 +503,9 @@ func (e *kvEnv) step(s kvStep) string {
 	e.ncmd++
 	e.types[ent.typ] = true
 	e.classes["cmd:"+s.C] = true
+	if kvVariadic[s.C] {
+		e.classes[fmt.Sprintf("variadic-form:%d:%s", s.V, s.C)] = true
+	}
 	dead := s.X && s.D != 0
 	// shard fault: for the duration of this step shard B-1 answers every command with an
 	// error reply. Faults are outside the statement's quantifier; judged is only what
@@ -880,6 +891,9 @@ func kvGen(rt *rapid.T) kvCase {
 		name := kvWeighted[g.uni(len(kvWeighted))]
 		s := kvTable[name].gen(g)
 		s.C = name
+		if kvVariadic[name] {
+			s.V = []int{0, 0, 0, 0, 0, 0, 1, 1, 2, 2, 3, 4}[g.uni(12)]
+		}
 		s.X = g.uni(2) == 1
 		if s.X { // about 1 Ctx call in 7 gets a dead context
 			switch g.uni(14) {
